@@ -21,16 +21,30 @@ class C11(ModelCheck):
             'non-trivial: >= 3 events and >= 2 operators; distinct = distinct (program, schedule)')
     assumptions = ['granularity is the source event ("while the source item that determines it is being processed")',
                    'an operator instance whose values disagree with the model is skipped here (that is another property\'s violation)']
-    probe_names = ('op:batch', 'op:roll', 'op:split', 'op:time_split', 'op:group_by', 'op:tee_map', 'completion_triggered_after_take',
+    probe_names = ('clock_skew', 'op:batch', 'op:roll', 'op:split', 'op:time_split', 'op:group_by', 'op:tee_map', 'completion_triggered_after_take',
                    'interleaved>=3')
 
     def relevant(self, f):
         return f.kind in self.kinds
 
+    def gen(self, rng, tier):
+        case = ModelCheck.gen(self, rng, tier)
+        if find_nodes(case['program'], lambda n: n['op'] == 'time_split') and rng.random() < 0.3:
+            # fault: clock skew - some items carry a timestamp older than their predecessor's.  C07 specifies which
+            # window an item belongs to for non-decreasing timestamps only, but *when* a result is emitted (C11) is
+            # meaningful for any input: the expiry/closing arithmetic of the model does not need monotonic time
+            from rxsim.workload import skew
+            case['events'], n = skew(rng, case['events'])
+            case['skew'] = True
+        return case
+
     def probe(self, case, ctx, out):
         ModelCheck.probe(self, case, ctx, out)
         from rxsim.program import size_of, completion_triggered
         out.nontrivial = len(case['events']) >= 3 and size_of(case['program']) >= 2
+        if case.get('skew'):
+            out.faults['clock_skew_backward_timestamps'] += sum(1 for a, b in zip(case['events'], case['events'][1:]) if b['t'] < a['t'])
+            out.probes['clock_skew'] += 1
 
         def scan(nodes):
             seen_take = False
